@@ -367,6 +367,13 @@ func (ts *TermStore) BVBin(op Op, a, b *Term) *Term {
 		if b.IsConst() && b.IVal == 0 {
 			return a
 		}
+		// (x + c1) + c2 = x + (c1+c2)
+		if a.IsConst() {
+			a, b = b, a
+		}
+		if b.IsConst() && a.Op == OpAdd && a.Args[1].IsConst() {
+			return ts.BVBin(OpAdd, a.Args[0], ts.BVConst(a.Args[1].IVal+b.IVal, w))
+		}
 	case OpSub:
 		if b.IsConst() && b.IVal == 0 {
 			return a
